@@ -18,14 +18,15 @@ def run(ctx):
         "string literal, so class newline occurs only as white space and in/after comments",
         "segmentations: whole, whole with EOF on the same read, 1 byte per read, seeded random, and the Read(n) sequences the "
         "specification chose in walk mode - not all 2^(n-1) segmentations of every document (MC_JsonPlus checks all of them on the model)",
-        "documents with a token above 64 KiB are replayed with reads of 4096 / random <= 8192 bytes / whole only",
+        "documents with a token above 64 KiB are replayed whole and with reads of 4096 / random <= 8192 bytes (65536 bytes above 300 KB), "
+        "not byte by byte (the library rescans a token from its start after every read); the largest token tried is 2 MB (thorough) / 100 KiB (quick)",
     ]
     ctx.sany("json", "JsonPlus")
     ctx.sany("json", "Gen_JsonPlus")
     # the reference stripper is right on every small document under every segmentation
     ctx.tlc("json", "MC_JsonPlus", "MC_JsonPlus.cfg", coverage=thorough)
     if thorough:
-        ctx.tlc("json", "MC_JsonPlus", "MC_JsonPlus_big.cfg", timeout=800)
+        ctx.tlc("json", "MC_JsonPlus_big", "MC_JsonPlus_big.cfg", timeout=800)
     # ... and passing apostrophe-delimited regions through (as the library does) changes nothing on documents
     ctx.tlc("json", "MC_JsonPlus", "MC_JsonPlus_apos.cfg")
     # non-vacuity: the named deviation 'end-of-string search ignores backslash escapes' violates StripOk
